@@ -310,12 +310,36 @@ package internal
 //@   requires g != nil && f != nil && f.AST != nil && g.fset != nil
 //@   at slice 1 assert [C16] header-is-everything-before-the-package-clause: low == 0 && high == pure($OFF, posFile, f.AST.Package)
 //@   at slice 1 ghost next = high
-//@   loop 2 invariant [C16] source-accounted-for-up-to-the-previous-directives-end: lastOff == next
+//@   loop 2 invariant [C16] source-accounted-for-up-to-the-previous-directives-end: lastOff == next && !failed && written == 0
 //@   at slice 2 assert [C16] copies-from-previous-directives-end-to-this-directives-start: low == next && high == pure($OFF, posFile, pure($GPOS, gen))
 //@   at call Write 1 pre assert [C16] copied-bytes-go-to-the-output-buffer: arg0 == &buff
 //@   at call generate 1 ghost next = pure($OFF, posFile, pure($GEND, gen))
 //@   at slice 3 assert [C16] tail-copied-from-the-last-directives-end-to-end-of-file: low == next && high == baselen
 //@   at call Write 2 pre assert [C16] tail-goes-to-the-output-buffer: arg0 == &buff
+//   no error is swallowed: GenerateFile returns nil for a file with directives
+//   only if reading, the header pass, every copy, every directive's generation,
+//   re-parsing, formatting, the source-map pass and the final write all
+//   succeeded; the output file is written only then, and to the output path
+//@   ghost failed bool = false
+//@   ghost written int = 0
+//@   at call ReadFile 1 ghost failed = failed || ret1 != nil
+//@   at call writeInvertedCffTag 1 ghost failed = failed || ret != nil
+//@   at call Write 1 ghost failed = failed || ret1 != nil
+//@   at call generate 1 ghost failed = failed || ret != nil
+//@   at call Write 2 ghost failed = failed || ret1 != nil
+//@   at call ParseFile 1 ghost failed = failed || ret1 != nil
+//@   at call Node 1 ghost failed = failed || ret != nil
+//@   at call resetMagicTokens 1 ghost failed = failed || ret != nil
+//@   at call WriteFile 1 pre assert [C13,C16] output-written-only-after-every-step-succeeded: !failed && written == 0 && arg0 == g.outputPath
+//@   at call WriteFile 2 pre assert [C13,C16] output-written-only-after-every-step-succeeded: !failed && written == 0 && arg0 == g.outputPath
+//@   at call WriteFile 1 ghost written = written + 1
+//@   at call WriteFile 2 ghost written = written + 1
+//@   at call WriteFile 1 ghost failed = failed || ret != nil
+//@   at call WriteFile 2 ghost failed = failed || ret != nil
+//@   loop 1 invariant nothing-failed-so-far: !failed && written == 0
+//@   loop 3 invariant nothing-failed-so-far: !failed && written == 0
+//@   loop 4 invariant nothing-failed-so-far: !failed && written == 0
+//@   ensures [C13,C16] success-means-every-step-succeeded-and-the-output-was-written-once: implies(result == nil && len(f.Generators) > 0, !failed && written == 1)
 
 // ---------------------------------------------------------------------------
 // Frame conditions, discharged structurally on the SSA of every non-test
